@@ -29,6 +29,7 @@ const (
 )
 
 type Field struct {
+	Key     string // storage key when it differs from the symbol / model name (AddSymbolWithKey, AddFkSymbolWithKey); string fields only
 	Name    string
 	Kind    Kind
 	Prefix  []string // path prefix inside the entity bucket
@@ -201,6 +202,14 @@ func (s *strategy) FillEntity(e *Ent, bucket *boltz.TypedBucket) {
 	}
 }
 
+// StoreKey is the bucket key the field is stored under.
+func (f Field) StoreKey() string {
+	if f.Key != "" {
+		return f.Key
+	}
+	return f.Name
+}
+
 func nilFor(k Kind) any {
 	switch k {
 	case KList, KLinks:
@@ -214,7 +223,7 @@ func nilFor(k Kind) any {
 func readField(b *boltz.TypedBucket, f Field) any {
 	switch f.Kind {
 	case KStr, KStrReq:
-		if v := b.GetString(f.Name); v != nil {
+		if v := b.GetString(f.StoreKey()); v != nil {
 			return *v
 		}
 	case KI32:
@@ -277,7 +286,7 @@ func persistField(e *Ent, f Field, ctx *boltz.PersistContext) {
 	if !present {
 		v = nil
 	}
-	if !ctx.ProceedWithSet(f.Name) {
+	if !ctx.ProceedWithSet(f.StoreKey()) {
 		return
 	}
 	if len(f.Prefix) > 0 {
@@ -306,7 +315,7 @@ func writeField(b *boltz.TypedBucket, f Field, v any, e *Ent, ctx *boltz.Persist
 	if v == nil {
 		switch f.Kind {
 		case KStrReq:
-			ctx.SetRequiredString(f.Name, "")
+			ctx.SetRequiredString(f.StoreKey(), "")
 			return
 		case KList:
 			b.SetStringList(f.Name, nil, nil)
@@ -321,18 +330,18 @@ func writeField(b *boltz.TypedBucket, f Field, v any, e *Ent, ctx *boltz.Persist
 		if ctx.IsCreate && e.NilAbsent {
 			return
 		}
-		b.SetNil(f.Name)
+		b.SetNil(f.StoreKey())
 		return
 	}
 	switch f.Kind {
 	case KStr:
 		s := v.(string)
-		b.SetStringP(f.Name, &s, nil)
+		b.SetStringP(f.StoreKey(), &s, nil)
 	case KStrReq:
 		if len(f.Prefix) == 0 {
-			ctx.SetRequiredString(f.Name, v.(string))
+			ctx.SetRequiredString(f.StoreKey(), v.(string))
 		} else {
-			b.SetString(f.Name, v.(string), nil)
+			b.SetString(f.StoreKey(), v.(string), nil)
 		}
 	case KI32:
 		b.SetInt32(f.Name, v.(int32), nil)
@@ -476,13 +485,13 @@ func Build(defs []*StoreDef) *Schema {
 			switch f.Kind {
 			case KStr, KStrReq:
 				if target != nil {
-					st.Sym[f.Name] = st.Store.AddFkSymbol(f.Name, target, f.Prefix...)
+					st.Sym[f.Name] = st.Store.AddFkSymbolWithKey(f.Name, f.StoreKey(), target, f.Prefix...)
 				} else if f.Private {
 					sym := st.Store.NewEntitySymbol(f.Name, ast.NodeTypeString)
 					st.Store.AddEntitySymbol(sym)
 					st.Sym[f.Name] = sym
 				} else {
-					st.Sym[f.Name] = st.Store.AddSymbol(f.Name, ast.NodeTypeString, f.Prefix...)
+					st.Sym[f.Name] = st.Store.AddSymbolWithKey(f.Name, ast.NodeTypeString, f.StoreKey(), f.Prefix...)
 				}
 			case KI32, KI64, KF64, KBool, KTime:
 				nt := map[Kind]ast.NodeType{KI32: ast.NodeTypeInt64, KI64: ast.NodeTypeInt64, KF64: ast.NodeTypeFloat64, KBool: ast.NodeTypeBool, KTime: ast.NodeTypeDatetime}[f.Kind]
